@@ -97,6 +97,19 @@ class Chk:
 					if got != ('ok', e):
 						ctx.violation('type-variant', f'{fn.__name__}({tn} {s!r}) = {got} expected {e}', w)
 
+	def text_kmer(self, t: str):
+		"""A k-mer given as text that contains something else than ACGTacgt (ASCII junk or non-ASCII characters): must be rejected."""
+		ctx, gk = self.ctx, self.gk
+		ctx.case(('text', t))
+		for fn in (gk.kmer_to_index, gk.kmer_to_index_rc):
+			r = self._call(fn, t)
+			ctx.count('invalid_text_kmers')
+			if r[0] == 'ok':
+				mech = 'accepts-too-long' if sum(c in 'ACGTacgt' for c in t) >= 32 and len(t) > 32 else 'accepts-invalid'
+				ctx.violation(mech, f'{fn.__name__}({t!r}) (str) returned {r[1]} instead of raising', dict(kmer=t, type='str'))
+			else:
+				ctx.seen('rejection_error_types', r[1])
+
 	def rev(self, s: bytes):
 		ctx = self.ctx
 		ctx.case(('rev', s.hex()))
@@ -177,6 +190,11 @@ def run_shard(sh, ctx):
 			# arbitrary bytes, arbitrary length
 			junk = bytes(rng.randrange(256) for _ in range(rng.randint(0, 60)))
 			c.rev(junk)
+			# text k-mers with one foreign character (ASCII junk and non-ASCII), at a random position
+			t = s.decode('ascii')
+			pos = rng.randrange(k + 1)
+			for junk in (rng.choice('NnXx-. @1'), rng.choice('\u00e9\u00a0\ufeff\u0391\u4e2d\U0001F600\u0080\u00ff')):
+				c.text_kmer(t[:pos] + junk + t[pos:])
 			# too long
 			if rng.random() < 0.3:
 				L = rng.randint(33, 40)
@@ -195,6 +213,12 @@ def run_shard(sh, ctx):
 				c.rev(s)
 			for i in {0, 1, 2, 3, 4 ** k - 1, 4 ** k - 2, 4 ** k // 2, 4 ** k // 2 - 1, min(2 ** 63, 4 ** k - 1), min(2 ** 63 - 1, 4 ** k - 1), min(2 ** 64 - 1, 4 ** k - 1), min(2 ** 32, 4 ** k - 1), min(2 ** 32 - 1, 4 ** k - 1)}:
 				c.index(i, k)
+		for junk in '\u00e9\u00a0\ufeff\u0080\u00ff\u0100\u4e2d\U0001F600 N-':
+			c.text_kmer(junk)
+			c.text_kmer('ACGT' + junk)
+			c.text_kmer(junk + 'ACGT')
+			c.text_kmer('A' * 32 + junk)
+			c.text_kmer('A' * 16 + junk + 'C' * 16)
 		for L in range(33, 41):
 			c.kmer(b'A' * L)
 			c.kmer((b"ACGT" * 10)[:L])
@@ -203,7 +227,7 @@ def run_shard(sh, ctx):
 
 def finalize(merged, tier, seed, inconclusive):
 	c = merged['counters']
-	for n in ['valid_kmers', 'invalid_kmers_rejected_or_flagged', 'roundtrips', 'index_roundtrips', 'revcomp_calls', 'too_long_kmers', 'type:str', 'type:Seq', 'type:bytearray']:
+	for n in ['valid_kmers', 'invalid_kmers_rejected_or_flagged', 'roundtrips', 'index_roundtrips', 'revcomp_calls', 'too_long_kmers', 'type:str', 'type:Seq', 'type:bytearray', 'invalid_text_kmers']:
 		if c.get(n, 0) == 0:
 			inconclusive.append(f'class never observed: {n}')
 	merged['notes'].setdefault('sanitizer_stage', {})
